@@ -17,6 +17,10 @@ type Verdict struct {
 	FailTok     int    // index of the first offending token; len(toks) = at end of input
 	Class       string // syntax | undefined | redeclared | badliteral | bindselector | bindtarget | bindall | assign
 	Unspecified string // non-empty: the documentation does not settle this input
+	// AtOperand: the input fails where an operand (the start of an
+	// expression) was required; otherwise a specific token was required (a
+	// closing parenthesis, a name, '=', '{', '->', ...) or a rule was broken.
+	AtOperand bool
 }
 
 type recog struct {
@@ -28,11 +32,13 @@ type recog struct {
 }
 
 type recogFail struct {
-	at    int
-	class string
+	at      int
+	class   string
+	operand bool
 }
 
-func (r *recog) fail(at int, class string) { panic(recogFail{at, class}) }
+func (r *recog) fail(at int, class string) { panic(recogFail{at, class, false}) }
+func (r *recog) failOperand(at int)        { panic(recogFail{at, "syntax", true}) }
 
 func (r *recog) peek() (gen.Tok, bool) {
 	if r.i < len(r.toks) {
@@ -93,7 +99,7 @@ func ParseTokens(toks []gen.Tok) (prog *gen.Prog, v Verdict) {
 			if !ok {
 				panic(x)
 			}
-			prog, v = nil, Verdict{Accept: false, FailTok: f.at, Class: f.class, Unspecified: r.unspec}
+			prog, v = nil, Verdict{Accept: false, FailTok: f.at, Class: f.class, Unspecified: r.unspec, AtOperand: f.operand}
 		}
 	}()
 	for r.i < len(r.toks) {
@@ -327,7 +333,7 @@ func (r *recog) unary() *gen.Expr {
 func (r *recog) primary() *gen.Expr {
 	t, ok := r.peek()
 	if !ok {
-		r.fail(r.i, "syntax")
+		r.failOperand(r.i)
 	}
 	switch t.K {
 	case gen.KNum:
@@ -362,7 +368,7 @@ func (r *recog) primary() *gen.Expr {
 			return &gen.Expr{K: "not", A: r.not()}
 		default:
 			if gen.IsKeyword(t.S) {
-				r.fail(r.i, "syntax")
+				r.failOperand(r.i)
 			}
 			if !r.isVar(t.S) && r.depth == 0 {
 				r.fail(r.i, "undefined")
@@ -372,7 +378,7 @@ func (r *recog) primary() *gen.Expr {
 		}
 	case gen.KPunct:
 		if t.S != "(" {
-			r.fail(r.i, "syntax")
+			r.failOperand(r.i)
 		}
 		r.i++
 		e := r.expr()
